@@ -76,11 +76,12 @@ fn input_menu(rng: &mut Rng) -> (InputSpec, Vec<(String, Ty)>) {
     }
 }
 
-pub fn generate(verif_seed: u64, idx: u64) -> Scenario {
-    // 16 consecutive indices share one base scenario and enumerate all 2^4
-    // patterns of "which of (up to) four designated call sites fail"
-    let family = idx >> 4;
-    let mask = (idx & 15) as u32;
+pub fn generate(verif_seed: u64, idx: u64, thorough: bool) -> Scenario {
+    // 16 (thorough: 64) consecutive indices share one base scenario and enumerate all 2^4 (2^6)
+    // patterns of "which of (up to) four (six) designated call sites fail"
+    let bits = if thorough { 6 } else { 4 };
+    let family = idx >> bits;
+    let mask = (idx & ((1 << bits) - 1)) as u32;
     let seed = run_seed(verif_seed, "C09", family);
     let mut rng = Rng::new(seed);
     let mut scn = Scenario::new("C09");
@@ -115,7 +116,7 @@ pub fn generate(verif_seed: u64, idx: u64) -> Scenario {
     let mut designated = 0;
     'outer: for f in scn.functions.iter_mut() {
         for row in f.rows.iter_mut() {
-            if designated >= 4 {
+            if designated >= bits {
                 break 'outer;
             }
             if mask & (1 << designated) != 0 {
